@@ -699,6 +699,41 @@ fn oracle_c03(fields: &[&str]) -> String {
         if n != count || got != want {
             return format!("oracle FAIL sequential expected n={count} data={want} got n={n} data={got}");
         }
+        // the same through the containers that store fewer than four elements (what a step leaves in an element the
+        // container does not store is gone before the next step, in a pipeline as between stand-alone applications)
+        fn dump_set(set: &dyn CoordinateSet) -> String {
+            (0..set.len()).map(|i| { let c = set.get_coord(i); format!("{:x},{:x},{:x},{:x}", c[0].to_bits(), c[1].to_bits(), c[2].to_bits(), c[3].to_bits()) }).collect::<Vec<_>>().join(";")
+        }
+        let mut sets: Vec<(&str, Box<dyn CoordinateSet>, Box<dyn CoordinateSet>)> = vec![];
+        let d2: Vec<Coor2D> = data.iter().map(|c| Coor2D([c[0], c[1]])).collect();
+        let d3: Vec<Coor3D> = data.iter().map(|c| Coor3D([c[0], c[1], c[2]])).collect();
+        let d32: Vec<Coor32> = data.iter().map(|c| Coor32([c[0] as f32, c[1] as f32])).collect();
+        sets.push(("Vec<Coor2D>", Box::new(d2.clone()), Box::new(d2)));
+        sets.push(("Vec<Coor3D>", Box::new(d3.clone()), Box::new(d3)));
+        sets.push(("Vec<Coor32>", Box::new(d32.clone()), Box::new(d32)));
+        for (name, mut a, mut b) in sets {
+            let mut count = usize::MAX;
+            let order: Vec<usize> = if inverse { (0..nsteps).rev().collect() } else { (0..nsteps).collect() };
+            for k in order {
+                let (flags, core) = &steps[k];
+                let omit = if inverse { flags.contains('V') } else { flags.contains('F') };
+                if omit {
+                    continue;
+                }
+                let text = if flags.contains('I') { format!("{core} inv") } else { core.clone() };
+                let Ok(sop) = ctx.op(&text) else { return "oracle FAIL a step instantiable a moment ago is not any more".to_string() };
+                if let Ok(k) = ctx.apply(sop, if inverse { Inv } else { Fwd }, a.as_mut()) {
+                    count = count.min(k);
+                }
+            }
+            if count == usize::MAX {
+                count = data.len();
+            }
+            let n = ctx.apply(op, if inverse { Inv } else { Fwd }, b.as_mut()).unwrap_or(usize::MAX);
+            if n != count || dump_set(a.as_ref()) != dump_set(b.as_ref()) {
+                return format!("oracle FAIL on a {name}: the steps one after the other give n={count} data={}, the pipeline n={n} data={}", dump_set(a.as_ref()), dump_set(b.as_ref()));
+            }
+        }
         "oracle pass".to_string()
     })
 }
